@@ -94,7 +94,29 @@ def shape_comp(cfg):
     return build
 
 
-SHAPES = {'blog': shape_blog, 'comp': shape_comp}
+def shape_own(cfg):
+    """Owner (NOT versioned) 1-n Pet (versioned): the versioned child's foreign key is nullified by a
+    cascade from a non-versioned parent (children are loaded during the flush, after before_flush)."""
+    import sqlalchemy as sa
+
+    def build(env, Base, opts):
+        v = {'__versioned__': dict(opts)} if opts is not None else {}
+        Owner = type('Owner', (Base,), dict(
+            __tablename__='owner',
+            id=sa.Column(sa.Integer, primary_key=True, autoincrement=False),
+            a=sa.Column(sa.Integer)))
+        Pet = type('Pet', (Base,), dict(
+            __tablename__='pet',
+            id=sa.Column(sa.Integer, primary_key=True, autoincrement=False),
+            a=sa.Column(sa.Integer),
+            owner_id=sa.Column(sa.Integer, sa.ForeignKey('owner.id')),
+            owner=sa.orm.relationship(Owner, backref='pets'), **v))
+        env.classes = [Owner, Pet]
+        env.assoc = []
+    return build
+
+
+SHAPES = {'blog': shape_blog, 'comp': shape_comp, 'own': shape_own}
 
 
 def plugins_for(cfg):
@@ -180,6 +202,9 @@ def gen_program(rng, cfg, n_ops=None, weights=None):
     if shape == 'blog':
         classes = [0, 1, 2, 3]
         keypool = {0: [1, 2], 1: [1, 2, 3], 2: [1, 2], 3: [1, 2]}
+    elif shape == 'own':
+        classes = [0, 1]
+        keypool = {0: [1, 2], 1: [1, 2, 3]}
     else:
         classes = [0, 1]
         keypool = {0: [[1, 1], [1, 2], [2, 1]], 1: ['a', 'b']}
@@ -207,6 +232,13 @@ def gen_program(rng, cfg, n_ops=None, weights=None):
             if ek in exists or rng.random() < 0.05:
                 ops.append(['del', c, key])
                 exists.pop(ek, None)
+        elif r < 0.72 and shape == 'own':
+            if rng.random() < 0.6:
+                p_, o_ = rng.choice(keypool[1]), rng.choice(keypool[0] + [None])
+                if (1, json.dumps(p_)) in exists and (o_ is None or (0, json.dumps(o_)) in exists):
+                    ops.append(['petto', p_, o_])
+            else:
+                ops.append(['forget'])
         elif r < 0.72 and shape == 'blog':
             kind = rng.choice(['link', 'unlink', 'tagto', 'tagto', 'note', 'tagappend'])
             if kind in ('link', 'unlink'):
@@ -248,6 +280,8 @@ def gen_program(rng, cfg, n_ops=None, weights=None):
 def gen_vals(rng, cfg, c):
     if cfg['shape'] == 'blog':
         names = {0: ['a', 'b', 'x'], 1: ['a'], 2: ['a'], 3: ['a']}[c]
+    elif cfg['shape'] == 'own':
+        names = ['a']
     else:
         names = {0: ['a', 'b'], 1: ['a', 'title']}[c]
     d = {}
@@ -663,6 +697,17 @@ def run_program(env, cfg, prog, record=True, plain=False, fault=None):
                         outcomes.append('skip')
                         continue
                     t.article = a
+                elif kind == 'petto':
+                    p_ = lookup(1, op[1])
+                    o_ = lookup(0, op[2]) if op[2] is not None else None
+                    if p_ is None or (op[2] is not None and o_ is None):
+                        outcomes.append('skip')
+                        continue
+                    p_.owner = o_
+                elif kind == 'forget':
+                    # drop the application's references and the identity map (objects will be reloaded)
+                    s.expunge_all()
+                    refs.clear()
                 elif kind == 'tagappend':
                     a, t = lookup(0, op[1]), lookup(1, op[2])
                     if a is None or t is None:
